@@ -147,6 +147,7 @@ type Config struct {
 	RandMenu func(n int64) []int64
 	RandLog  *[]int64 // every drawn value is appended here
 	NoTick   bool     // the clock does not advance on reads (sequential harnesses that merge states)
+	YieldOnRelease bool // a Mutex/RWMutex unlock is followed by a scheduling point (code that touches shared state right after unlocking)
 	Strict   bool     // every departure from the default scheduling decision costs 1 (also when the running thread blocked)
 	Sites    bool
 }
